@@ -106,6 +106,12 @@ def generate(rng, tier):
         if plan["addition"] is None:
             plan["excess"] = {}
         plan["opts_at"] = "class"
+        if not plan["args"] and rng.random() < 0.35:
+            # the first k parameters are positional-only: given by position up to the first one that is left out
+            plan["posonly"] = rng.randint(1, len(fields))
+            plan["conflict"] = {}
+            plan["input"] = inp
+            _posonly_consistent(plan)
     fl = {}
     if positions:
         p = rng.choice([0.1, 0.25, 0.5])
@@ -182,6 +188,8 @@ def build(plan, collect, faulted=True):
             params.append(f"{f['name']}: T_{f['name']} = P_{f['name']}")
         else:
             params.append(f"{f['name']}: T_{f['name']}" + ("" if f["required"] else " = None"))
+    if plan.get("posonly"):
+        params.insert(min(plan["posonly"], len(params)), "/")
     params.append("*args: Leaf")
     if plan["addition"] == "leaf":
         params.append("**kwargs: Leaf")
@@ -195,6 +203,14 @@ def build(plan, collect, faulted=True):
             pos = [v[n] for n in names] + list(a)
             kw = {k: x for k, x in v.items() if k not in names}
             return g(*pos, **kw)
+        if plan.get("posonly"):
+            pos = []
+            for n in names[:plan["posonly"]]:
+                if n not in v:
+                    break
+                pos.append(v[n])
+            given = set(names[:len(pos)])
+            return g(*pos, **{k: x for k, x in v.items() if k not in given and k not in names[:plan["posonly"]]})
         return g(**v)
     return call
 
@@ -359,11 +375,32 @@ def _run(plan, collect):
         return ("raw", type(e).__name__, kernel.clean_text(e, 120))
 
 
+def _posonly_consistent(plan):
+    """What comes after a left-out positional-only parameter cannot be given either (also after shrinking)."""
+    if not plan.get("posonly"):
+        return plan
+    gone = False
+    for f in func_order(plan)[:plan["posonly"]]:
+        if gone and f["name"] in plan["input"]:
+            plan["input"].pop(f["name"])
+            if f["required"] and f["name"] not in plan["drop"]:
+                plan["drop"].append(f["name"])
+        gone = gone or f["name"] not in plan["input"]
+    # (whether a positional-only parameter that took its default satisfies a dependency, and that a parameter passed by
+    # position does not demand its dependencies at all, is not this property's matter: both modes agree on it)
+    po = {f["name"] for f in func_order(plan)[:plan["posonly"]]}
+    for f in plan["fields"]:
+        if f.get("deps") and (set(f["deps"]) & po or f["name"] in po):
+            f.pop("deps")
+    return plan
+
+
 def execute(plan):
     res = RunResult()
     kernel.reset_world()
     faults.register_leaves()
     kernel.make_module("verif_c10")
+    plan = _posonly_consistent(copy.deepcopy(plan))
 
     # fault-free control (no leaf faults, no structural faults): both modes accept, equal values
     ctl = copy.deepcopy(plan)
@@ -446,6 +483,14 @@ def execute(plan):
                 if cls_name == "ExceedError" and item not in plan["excess"]:
                     res.violate(f"C10|{plan['kind']}|3:field_reported_exceeding|{path_kind}|{me}",
                                 f"ExceedError for {item!r}, which is a declared field; reported {co[3]}")
+            seen_pairs = set()
+            for cls_name, item in co[3]:
+                if (cls_name, item) in seen_pairs and item is not None:
+                    # "names exactly the failing items": one entry per failure (a duplicate also uses up max_errors)
+                    res.violate(f"C10|{plan['kind']}|3:item_reported_twice|{path_kind}|{me}",
+                                f"{cls_name} for {item!r} is reported more than once: {co[3]}")
+                    break
+                seen_pairs.add((cls_name, item))
             names = names - (OPTIONAL - G)
             if not names <= G:
                 res.violate(f"C10|{plan['kind']}|3:valid_item_reported|{path_kind}|{me}",
